@@ -271,6 +271,10 @@ func (c *c04Case) execute() (res map[string]interface{}, text string, calls []Ca
 				pan = r
 			}
 		}()
+		if len(c.Prime) > 0 {
+			res = ResolveReused(root, text, cs.Op, kvGo(c.Prime), vars, func() { rec.mu.Lock(); rec.calls = nil; rec.mu.Unlock() })
+			return
+		}
 		res = root.ResolveString(text, cs.Op, vars)
 	}()
 	calls = rec.calls
